@@ -14,6 +14,7 @@ up to evaluation order of side-effect-free operands, which no rule depends on.
   N3  t = E ; return t   (t assigned once, used once)   ->  return E
   N4  x = x <op> e   (x a plain name)                    ->  x <op>= e
   N5  if a: (if b: BODY)   (no else on either, nothing else in the outer body)  ->  if a and b: BODY
+  N6  x: T = v   inside a function (x a plain name)        ->  x = v
 """
 
 from __future__ import annotations
@@ -128,6 +129,24 @@ class _Canon(ast.NodeTransformer):
 
     def visit_FunctionDef(self, node):
         self.generic_visit(node)
+        # N6: annotated assignments to plain local names (class bodies are not descended into
+        # here: dataclass fields keep their annotations)
+        stack_ = [node]
+        while stack_:
+            x = stack_.pop()
+            for fld in ("body", "orelse", "finalbody"):
+                b = getattr(x, fld, None)
+                if isinstance(b, list) and b and isinstance(b[0], ast.stmt):
+                    for i, st in enumerate(b):
+                        if isinstance(st, ast.AnnAssign) and isinstance(st.target, ast.Name) and st.value is not None:
+                            b[i] = ast.copy_location(ast.Assign(targets=[st.target], value=st.value), st)
+            for h in getattr(x, "handlers", []) or []:
+                stack_.append(h)
+            for c in ast.iter_child_nodes(x):
+                if isinstance(c, (ast.FunctionDef, ast.AsyncFunctionDef, ast.ClassDef, ast.Lambda)):
+                    continue
+                if isinstance(c, (ast.stmt, ast.match_case)):
+                    stack_.append(c)
         # (stores, loads) per name in this function, nested scopes included (conservative)
         counts: dict[str, tuple[int, int]] = {}
         for n in ast.walk(node):
